@@ -525,12 +525,13 @@ Definition converted (lp rp : proc) : Prop :=
   noise_sem (p_noise rp) = noise_sem (p_noise lp) /\
   p_filter rp = p_filter lp.
 
-Theorem from_local_partial lp :
+(* the code before repo commit 55925315 (historical configuration) *)
+Theorem from_local_old_code_partial lp :
   msize lp <> 0 -> (forall st, p_in lp = Some st -> length st = p_size lp) ->
   p_her lp = [] \/ p_in lp = None ->
-  exists rp, from_local lp = Ok rp /\ converted lp rp /\ p_in rp = p_in lp.
+  exists rp, from_local_old_code lp = Ok rp /\ converted lp rp /\ p_in rp = p_in lp.
 Proof.
-  intros M L C. unfold from_local. destruct (msize lp =? 0) eqn:E; [apply Nat.eqb_eq in E; contradiction|].
+  intros M L C. unfold from_local_old_code, from_local_gen. destruct (msize lp =? 0) eqn:E; [apply Nat.eqb_eq in E; contradiction|].
   destruct (p_in lp) as [st|] eqn:I.
   - destruct C as [H|H]; [|discriminate H].
     unfold apply_op. unfold msize, relabelled at 1 2. cbn [p_her p_size p_circ c_size]. rewrite H. cbn [map length].
@@ -542,13 +543,11 @@ Proof.
     unfold converted, relabelled; cbn. repeat split.
 Qed.
 
-(* The full statement
-     forall lp, wf_her lp -> msize lp <> 0 -> (input length = circuit size) ->
-       exists rp, from_local lp = Ok rp /\ converted lp rp /\ (input of rp = input of lp relabelled)
-   is false of the current code: *)
-Theorem from_local_preserves_refuted :
+(* The full statement (from_local_preserves below, proved for the current code) was false of the code before the
+   repair: *)
+Theorem from_local_old_code_refuted :
   exists lp, wf_her lp /\ msize lp <> 0 /\ (forall st, p_in lp = Some st -> length st = p_size lp) /\
-    from_local lp = Err XAssert 1.
+    from_local_old_code lp = Err XAssert 1.
 Proof.
   exists (mkproc (mkcirc 0 4 [0; 1; 2; 3]) [] [] [(3, 1)] (Some [1; 0; 0; 1]) None None (Some 1)).
   split; [split; [repeat constructor; intros []; contradiction | repeat constructor]|].
@@ -689,4 +688,99 @@ Proof.
   unfold exec_payload. destruct (handle_params _ _ _ _ _) as [cm|]; cbn [bind]; [|intros H; discriminate H].
   intros C. exists cm. split; [reflexivity|]. unfold ctx_of.
   rewrite (lookup_clamp KJobContext _ _ eq_refl C). rewrite lookup_dset_same. reflexivity.
+Qed.
+
+(* ------------------------------------------------------------------ conversion, current code: the full statement *)
+Lemma remove_her_length h : forall st k,
+  length (remove_her h k st) = length (filter (fun i => negb (is_her h i)) (seq k (length st))).
+Proof.
+  induction st as [|x r IH]; intros k; cbn [remove_her length seq filter]; [reflexivity|].
+  destruct (is_her h k); cbn [negb length]; rewrite IH; reflexivity.
+Qed.
+
+Lemma index_of_lt k l : In k l -> index_of k l < length l.
+Proof.
+  induction l as [|x r IH]; intros H; [contradiction|]. cbn [index_of length].
+  destruct (x =? k) eqn:E; [lia|]. apply Nat.eqb_neq in E. destruct H as [H|H]; [contradiction|].
+  specialize (IH H). lia.
+Qed.
+Lemma index_of_inj a b l : In a l -> In b l -> index_of a l = index_of b l -> a = b.
+Proof.
+  induction l as [|x r IH]; intros Ha Hb; [contradiction|]. cbn [index_of].
+  destruct (x =? a) eqn:Ea, (x =? b) eqn:Eb; intros E.
+  - apply Nat.eqb_eq in Ea, Eb. congruence.
+  - discriminate E.
+  - discriminate E.
+  - apply Nat.eqb_neq in Ea, Eb. destruct Ha as [|Ha]; [contradiction|]. destruct Hb as [|Hb]; [contradiction|].
+    apply IH; [exact Ha | exact Hb | congruence].
+Qed.
+
+Lemma herald_in_order lp k : In k (map fst (p_her lp)) -> In k (mode_order lp).
+Proof. intros H. unfold mode_order. apply in_or_app. right. exact H. Qed.
+
+Lemma her_find_relabelled lp : forall r k v,
+  (forall a, In a (map fst r) -> In a (mode_order lp)) -> In k (mode_order lp) ->
+  her_find r k = Some v ->
+  her_find (map (fun h => (sigma lp (fst h), snd h)) r) (sigma lp k) = Some v.
+Proof.
+  unfold her_find. induction r as [|[a x] r IH]; intros k v Hr Hk; cbn [find map fst snd]; [intros H; discriminate H|].
+  destruct (a =? k) eqn:E.
+  - apply Nat.eqb_eq in E. subst. rewrite Nat.eqb_refl. trivial.
+  - apply Nat.eqb_neq in E. destruct (sigma lp a =? sigma lp k) eqn:F.
+    + apply Nat.eqb_eq in F. exfalso. apply E. unfold sigma in F.
+      apply (index_of_inj a k (mode_order lp)); [apply Hr; left; reflexivity | exact Hk | exact F].
+    + apply IH; [intros b Hb; apply Hr; right; exact Hb | exact Hk].
+Qed.
+
+Lemma nodup_app_r {A} (a b : list A) : NoDup (a ++ b) -> NoDup b.
+Proof. induction a as [|x a IH]; cbn; intros H; [exact H|]. inversion H; subst. apply IH. assumption. Qed.
+
+Lemma relabelled_wf lp : wf_her lp -> wf_her (relabelled lp).
+Proof.
+  intros W. destruct (sigma_bijective lp W) as [_ L].
+  assert (ND : NoDup (mode_order lp)).
+  { eapply Permutation_NoDup; [apply Permutation_sym; apply mode_order_perm; exact W | apply seq_NoDup]. }
+  pose proof (sigma_order lp ND) as S.
+  unfold wf_her, relabelled; cbn [p_her p_size p_circ c_size]. rewrite map_map. cbn [fst].
+  rewrite <- (map_map fst (sigma lp)). split.
+  - unfold mode_order in S at 1. rewrite map_app in S.
+    assert (N : NoDup (map (sigma lp) (filter (fun k => negb (is_her (p_her lp) k)) (seq 0 (p_size lp))) ++
+                       map (sigma lp) (map fst (p_her lp)))) by (rewrite S; apply seq_NoDup).
+    apply nodup_app_r in N. exact N.
+  - apply Forall_forall. intros y Hy. apply in_map_iff in Hy. destruct Hy as (k & <- & Hk).
+    unfold sigma. rewrite <- L. apply index_of_lt. apply herald_in_order. exact Hk.
+Qed.
+
+Theorem from_local_preserves lp :
+  wf_her lp -> msize lp <> 0 -> (forall st, p_in lp = Some st -> length st = p_size lp) ->
+  exists rp, from_local lp = Ok rp /\ converted lp rp /\
+    match p_in lp with
+    | None => p_in rp = None
+    | Some st => exists full, p_in rp = Some full /\ length full = p_size lp /\
+        remove_her (p_her rp) 0 full = remove_her (p_her lp) 0 st /\
+        (forall k v, her_find (p_her lp) k = Some v -> nth (sigma lp k) full 0 = v)
+    end.
+Proof.
+  intros W M L. unfold from_local, from_local_gen.
+  destruct (msize lp =? 0) eqn:E; [apply Nat.eqb_eq in E; contradiction|].
+  destruct (p_in lp) as [st|] eqn:I.
+  2:{ eexists. split; [reflexivity|]. split; [|reflexivity]. unfold converted, relabelled; cbn. repeat split. }
+  set (rl := relabelled lp). set (st' := remove_her (p_her lp) 0 st).
+  assert (Ms : msize rl = msize lp).
+  { unfold msize, rl, relabelled; cbn [p_her p_size p_circ c_size]. rewrite map_length. reflexivity. }
+  assert (Ls : length st' = msize rl).
+  { rewrite Ms. unfold st'. rewrite remove_her_length, (L st eq_refl). apply moi_count. exact W. }
+  assert (X : apply_op rl (OInput st') = Ok (set_in rl (Some (merge_in (p_her rl) 0 (p_size rl) st')))).
+  { cbn [apply_op]. rewrite Ls, Nat.eqb_refl. reflexivity. }
+  rewrite X. eexists. split; [reflexivity|]. split.
+  { unfold converted, set_in, rl, relabelled; cbn. repeat split. }
+  destruct (with_input_full rl st' _ (relabelled_wf lp W) X) as (full & F1 & F2 & F3 & F4 & F5).
+  exists full. split; [exact F1|]. split; [exact F2|]. split.
+  { cbn [p_her set_in]. exact F3. }
+  intros k v H. destruct (sigma_bijective lp W) as [_ Lm].
+  assert (Hk : In k (mode_order lp)).
+  { apply herald_in_order. apply is_her_in. unfold is_her. rewrite H. reflexivity. }
+  apply F4.
+  - change (p_size rl) with (p_size lp). unfold sigma. rewrite <- Lm. apply index_of_lt. exact Hk.
+  - unfold rl, relabelled; cbn [p_her]. apply her_find_relabelled; [intros a Ha; apply herald_in_order; exact Ha | exact Hk | exact H].
 Qed.
